@@ -54,6 +54,8 @@ def generate(rng, tier, i):
            # listeners that were registered for an address and removed again before any traffic: the address is not owned
            'ghost_listeners': [a for a in (rng.randrange(0, 254), 0x10, 0xCA)[:rng.choice([0, 0, 1, 2])] if a not in used]}
     scn['orphan'] = 0x5E not in used and rng.random() < 0.6
+    # an application that registers one and the same receive function for all its CAs and ECU-level listeners
+    scn['stacks'][0]['shared_callback'] = rng.random() < 0.25
     return scn
 
 
@@ -121,6 +123,17 @@ def execute(scn, keep_log=False, hook=None):
             must = set()
         return must, allowed
 
+    shared = bool(cfg.get('shared_callback'))
+
+    def compare(ids, must, allowed):
+        """(extra, missing, duplicated) listeners.  With one callable shared by every registration of the stack the calls cannot be told
+        apart: then the number of calls is judged (at least one per listener that must get the message, at most one per listener that may)."""
+        if shared:
+            n = len(ids)
+            return (['%d calls of the shared callback' % n] if n > len(allowed) else [],
+                    ['%d call(s) of the shared callback for %d bound listeners' % (n, len(must))] if n < len(must) else [], [])
+        return [l for l in ids if l not in allowed], [l for l in must if l not in ids], [l for l in set(ids) if ids.count(l) > 1]
+
     def all_listeners():
         return {'ca%d' % k for k in range(len(st.cas))} | {'ecu%d' % k for k in range(len(cfg['ecu_listeners']))}
 
@@ -152,9 +165,7 @@ def execute(scn, keep_log=False, hook=None):
             bad = [d for d in got if d['pgn'] != pgn or d['sa'] != X or d['data'] != data]
             if bad:
                 viol.append({'clause': 'wrong-content', 'rank': 1, 'msg': 'frame %08X delivered as pgn %05X sa %d %s' % (cid, bad[0]['pgn'], bad[0]['sa'], bad[0]['data'].hex())})
-            extra = [l for l in ids if l not in allowed]
-            missing = [l for l in must if l not in ids]
-            dup = [l for l in set(ids) if ids.count(l) > 1]
+            extra, missing, dup = compare(ids, must, allowed)
             kind = 'pdu2' if pdu2 else ('global' if dest == 255 else 'specific')
             if extra:
                 viol.append({'clause': 'delivered-to-unaddressed-listener', 'rank': 1, 'feat': {'frame': kind},
@@ -269,15 +280,14 @@ def execute(scn, keep_log=False, hook=None):
             want_pgn = rc.sae_pgn(dpx, pfx, 0 if pfx < 240 else psx)
             if any(d['pgn'] != want_pgn or d['sa'] != P1 for d in got):
                 viol.append({'clause': 'wrong-content', 'rank': 1, 'msg': 'connection-mode message %05X from %d to %d delivered as pgn %05X sa %d' % (want_pgn, P1, dest, got[0]['pgn'], got[0]['sa'])})
-            extra = [l for l in ids if l not in allowed]
-            missing = [l for l in must if l not in ids]
+            extra, missing, _dup = compare(ids, must, allowed)
             if extra:
                 viol.append({'clause': 'delivered-to-unaddressed-listener', 'rank': 1, 'feat': {'frame': 'cm-pdu%d' % (1 if pfx < 240 else 2)},
                              'msg': 'connection-mode message %05X to %d was delivered to %s; bound listeners: %s' % (want_pgn, dest, sorted(extra), sorted(allowed))})
             if missing:
                 viol.append({'clause': 'not-delivered-to-bound-listener', 'rank': 2, 'feat': {'frame': 'cm-pdu%d' % (1 if pfx < 240 else 2)},
                              'msg': 'connection-mode message %05X to %d was not delivered to %s (peer errors %s)' % (want_pgn, dest, sorted(missing), p1.protocol_errors[:1])})
-            if len(ids) != len(set(ids)):
+            if not shared and len(ids) != len(set(ids)):
                 viol.append({'clause': 'duplicate-delivery', 'rank': 2, 'feat': {'frame': 'cm'}, 'msg': 'connection-mode message to %d delivered twice to a listener' % dest})
     # ---- a broadcast (BAM) from a reference node is for everybody
     n0 = len(w.deliveries)
@@ -285,7 +295,7 @@ def execute(scn, keep_log=False, hook=None):
     p1.send_message(255, 0, 0xFE, 0xCB, d3)
     sim.run_for(0.1 + (scn['foreign_len'] / (60 if fd else 7) + 2) * (0.06 if not fd else 0.02))
     ids = sorted(d['l'] for d in w.deliveries[n0:] if d['data'] == bytes(d3) and d['pgn'] == 0xFECB and d['sa'] == P1)
-    if ids != sorted(all_listeners()) or len(w.deliveries) - n0 != len(ids):
+    if (ids != sorted(all_listeners()) if not shared else len(ids) != len(all_listeners())) or len(w.deliveries) - n0 != len(ids):
         viol.append({'clause': 'broadcast-not-to-every-listener', 'rank': 2, 'msg': 'BAM delivered to %s, listeners are %s (%d deliveries)' % (ids, sorted(all_listeners()), len(w.deliveries) - n0)})
     sim.run_for(0.5)
     # ---- ownership that ends in the middle of a transfer: an RTS/CTS session towards an address owned by an ECU-level listener is
